@@ -1038,6 +1038,10 @@ pub fn scenarios(prop: &str, thorough: bool) -> Vec<Scenario> {
             Scenario { writers: 2, increments_per_writer: 2, readers: 2, num_pages: 7, ..b.clone() },
             // the growing increment maps the file again without extending it (an earlier remap failed, see C04)
             Scenario { writers: 2, increments_per_writer: 2, readers: 2, grow_at: 1, num_pages: 8, failed_remap: true, ..b.clone() },
+            // after a failed remap only readers come: nobody is going to map the file again, and a reader's begin
+            // must not wait for that (seeded change C09-p busy-waits on a "file is growing" flag the failed remap
+            // left set; with a growing writer around, the flag is cleared before anybody notices)
+            Scenario { writers: 0, increments_per_writer: 0, readers: 2, rereads: 1, grow_at: 0, num_pages: 8, failed_remap: true, ..b.clone() },
             // a client panic inside writer 0's first (second) write transaction; everybody else carries on
             Scenario { writers: 3, increments_per_writer: 2, readers: 1, client_panic: 1, ..b.clone() },
             Scenario { writers: 2, increments_per_writer: 3, readers: 1, client_panic: 2, ..b.clone() },
